@@ -660,7 +660,12 @@ func (sp *subProcess) NextAction(ctx context.Context, flow Flow) chan IAction {
 	}
 
 	response := make(chan IAction, 1)
-	sp.mch <- nextActionMessage{response: response}
+	select {
+	case sp.mch <- nextActionMessage{response: response}:
+	case <-ctx.Done():
+		// the node's loop may have left already; the token's own select
+		// observes the cancellation
+	}
 	return response
 }
 
